@@ -302,6 +302,16 @@ func (c *Wallet) Close() bool {
 	return sessionManager().closeSession(c.userID) && c.contents.Close()
 }
 
+// checkTokenOwner fails if the given auth token is a live session of a different wallet profile: a token only
+// unlocks the wallet it was returned by. Tokens that are not live are left to the regular checks.
+func (c *Wallet) checkTokenOwner(authToken string) error {
+	if sessionManager().isSessionOfOtherUser(authToken, c.profile.User) {
+		return ErrWalletLocked
+	}
+
+	return nil
+}
+
 // Export produces a serialized exported wallet representation.
 // Only ciphertext wallet contents can be exported.
 //
@@ -350,6 +360,10 @@ func (c *Wallet) Import(auth string, contents json.RawMessage) error {
 //   - https://w3c-ccg.github.io/universal-wallet-interop-spec/#connection
 //   - https://w3c-ccg.github.io/universal-wallet-interop-spec/#Key
 func (c *Wallet) Add(authToken string, contentType ContentType, content json.RawMessage, options ...AddContentOptions) error { //nolint: lll
+	if err := c.checkTokenOwner(authToken); err != nil {
+		return err
+	}
+
 	return c.contents.Save(authToken, contentType, content, options...)
 }
 
@@ -362,6 +376,10 @@ func (c *Wallet) Add(authToken string, contentType ContentType, content json.Raw
 //   - https://w3c-ccg.github.io/universal-wallet-interop-spec/#meta-data
 //   - https://w3c-ccg.github.io/universal-wallet-interop-spec/#connection
 func (c *Wallet) Remove(authToken string, contentType ContentType, contentID string) error {
+	if err := c.checkTokenOwner(authToken); err != nil {
+		return err
+	}
+
 	return c.contents.Remove(authToken, contentID, contentType)
 }
 
@@ -374,6 +392,10 @@ func (c *Wallet) Remove(authToken string, contentType ContentType, contentID str
 //   - https://w3c-ccg.github.io/universal-wallet-interop-spec/#meta-data
 //   - https://w3c-ccg.github.io/universal-wallet-interop-spec/#connection
 func (c *Wallet) Get(authToken string, contentType ContentType, contentID string) (json.RawMessage, error) {
+	if err := c.checkTokenOwner(authToken); err != nil {
+		return nil, err
+	}
+
 	return c.contents.Get(authToken, contentID, contentType)
 }
 
@@ -387,6 +409,10 @@ func (c *Wallet) Get(authToken string, contentType ContentType, contentID string
 //   - https://w3c-ccg.github.io/universal-wallet-interop-spec/#meta-data
 //   - https://w3c-ccg.github.io/universal-wallet-interop-spec/#connection
 func (c *Wallet) GetAll(authToken string, contentType ContentType, options ...GetAllContentsOptions) (map[string]json.RawMessage, error) { //nolint: lll
+	if err := c.checkTokenOwner(authToken); err != nil {
+		return nil, err
+	}
+
 	opts := &getAllContentsOpts{}
 
 	for _, option := range options {
@@ -412,6 +438,10 @@ func (c *Wallet) GetAll(authToken string, contentType ContentType, options ...Ge
 //   - https://w3c-ccg.github.io/vp-request-spec/#query-by-example
 //   - https://w3c-ccg.github.io/vp-request-spec/#did-authentication-request
 func (c *Wallet) Query(authToken string, params ...*QueryParams) ([]*verifiable.Presentation, error) {
+	if err := c.checkTokenOwner(authToken); err != nil {
+		return nil, err
+	}
+
 	vcContents, err := c.contents.GetAll(authToken, Credential)
 	if err != nil {
 		return nil, fmt.Errorf("failed to query credentials: %w", err)
@@ -431,6 +461,10 @@ func (c *Wallet) Query(authToken string, params ...*QueryParams) ([]*verifiable.
 //		- Proof options.
 func (c *Wallet) Issue(authToken string, credential json.RawMessage,
 	options *ProofOptions) (*verifiable.Credential, error) {
+	if err := c.checkTokenOwner(authToken); err != nil {
+		return nil, err
+	}
+
 	vc, err := verifiable.ParseCredential(credential, verifiable.WithDisabledProofCheck(),
 		verifiable.WithJSONLDDocumentLoader(c.jsonldDocumentLoader))
 	if err != nil {
@@ -475,6 +509,10 @@ func (c *Wallet) Issue(authToken string, credential json.RawMessage,
 //		raw credential or a presentation).
 //		- proof options
 func (c *Wallet) Prove(authToken string, proofOptions *ProofOptions, credentials ...ProveOptions) (*verifiable.Presentation, error) { //nolint: lll
+	if err := c.checkTokenOwner(authToken); err != nil {
+		return nil, err
+	}
+
 	presentation, err := c.resolveOptionsToPresent(authToken, credentials...)
 	if err != nil {
 		return nil, fmt.Errorf("failed to resolve credentials from request: %w", err)
@@ -521,6 +559,10 @@ func (c *Wallet) Prove(authToken string, proofOptions *ProofOptions, credentials
 //
 // Returns: a boolean verified, and an error if verified is false.
 func (c *Wallet) Verify(authToken string, options VerificationOption) (bool, error) {
+	if err := c.checkTokenOwner(authToken); err != nil {
+		return false, err
+	}
+
 	requestOpts := &verifyOpts{}
 
 	options(requestOpts)
@@ -548,6 +590,10 @@ func (c *Wallet) Verify(authToken string, options VerificationOption) (bool, err
 //		- credential to derive (ID of the stored credential, raw credential or credential instance).
 //		- derive options.
 func (c *Wallet) Derive(authToken string, credential CredentialToDerive, options *DeriveOptions) (*verifiable.Credential, error) { //nolint: lll
+	if err := c.checkTokenOwner(authToken); err != nil {
+		return nil, err
+	}
+
 	vc, err := c.resolveCredentialToDerive(authToken, credential)
 	if err != nil {
 		return nil, fmt.Errorf("failed to resolve request : %w", err)
@@ -570,6 +616,10 @@ func (c *Wallet) Derive(authToken string, credential CredentialToDerive, options
 //		- authToken: authorization for performing create key pair operation.
 //		- keyType: type of the key to be created.
 func (c *Wallet) CreateKeyPair(authToken string, keyType kms.KeyType) (*KeyPair, error) {
+	if err := c.checkTokenOwner(authToken); err != nil {
+		return nil, err
+	}
+
 	session, err := sessionManager().getSession(authToken)
 	if err != nil {
 		return nil, err
@@ -598,6 +648,10 @@ func (c *Wallet) CreateKeyPair(authToken string, keyType kms.KeyType) (*KeyPair,
 //   - list of resolved descriptors.
 //   - error if operation fails.
 func (c *Wallet) ResolveCredentialManifest(authToken string, manifest json.RawMessage, resolve ResolveManifestOption) ([]*cm.ResolvedDescriptor, error) { //nolint: lll,gocyclo
+	if err := c.checkTokenOwner(authToken); err != nil {
+		return nil, err
+	}
+
 	credentialManifest := &cm.CredentialManifest{}
 
 	err := credentialManifest.UnmarshalJSON(manifest)
